@@ -37,24 +37,25 @@ HAND = {
     'C20': 'trailing 0xAA not kept; checksum test dropped; noise before a marker not trimmed',
 }
 STEER = {
-    "codec": "Choose a mechanism that is NOT in the list above. To help you look elsewhere: read the code path the property "
-             "depends on from top to bottom and list every constant, comparison operator, default value, early return and "
-             "type conversion on it; pick one that no attempt above has touched. Prefer places where two pieces of code must "
-             "agree (decoder and encoder of the same field type; the dispatcher and the per-definition function; value and "
-             "raw_value; the JSON writer and reader; a lookup table and its reverse map; the five input parsers) and make ONE "
-             "of them disagree for a narrow class of inputs. Avoid caches and shared state this time.",
-    "state": "Choose a mechanism that is NOT in the list above. To help you look elsewhere: read the code path the property "
-             "depends on from top to bottom and list every constant, comparison operator, default value, early return, "
-             "dictionary key and deletion on it; pick one that no attempt above has touched. Prefer an asymmetry: something done "
-             "for single-frame messages but not for fast-packet ones (or the reverse), for PDU1 but not PDU2, for the first "
-             "definition of a PGN but not the others, for numbers but not ids, for exclude but not include lists, on the path "
-             "that returns a message but not on a path that returns None.",
-    "async": "Choose a mechanism that is NOT in the list above. To help you look elsewhere: read connect(), _receive_loop(), "
-             "_process_queue(), send(), close() and _update_state() line by line and list every await, every state test, every "
-             "exception handler and every task creation; pick one that no attempt above has touched and change what happens "
-             "there in a way that needs a particular schedule or fault to show (for example: which exception types a handler "
-             "covers, what is done before versus after an await, whether a state test uses == or !=, whether a task is awaited, "
-             "cancelled or forgotten, what the handler does when the client is already CLOSED or already reconnecting).",
+    "codec": "Choose a mechanism that is NOT in the list above; the list is long, so be inventive. Angles nobody has used yet: "
+             "a change in nmea2000/consts.py (an enum member renamed, renumbered or aliased); in how NMEA2000Field / "
+             "NMEA2000Message are constructed (argument order, a default, a field silently dropped or duplicated); in the "
+             "handling of repeated field sets, of fields that depend on an earlier field (BINARY length, INDIRECT_LOOKUP, "
+             "DYNAMIC_FIELD_*), of the LAST field of a definition, of definitions shorter than their frame; in lookups whose "
+             "values are bit masks; in string trimming rules ('@', blanks, 0x00, 0xFF terminators); in the interplay of "
+             "`value is None` and `raw_value is None`. Keep the change tiny and plausible.",
+    "state": "Choose a mechanism that is NOT in the list above; the list is long, so be inventive. Angles nobody has used yet: "
+             "what the decoder does with its OUTPUT objects (returning an object it keeps and later changes; two messages sharing "
+             "a fields list or an IsoName); per-source state other than the identity (anything keyed by source that survives a "
+             "re-claim); the dump file handle (opened when, flushed when, closed when, reopened after close()); the decoder's "
+             "close(); unsupported / unknown PGN bookkeeping (sets that decide whether something is logged or skipped); the "
+             "order in which include / exclude / dump / manufacturer checks are applied when several are configured at once.",
+    "async": "Choose a mechanism that is NOT in the list above; the list is long, so be inventive. Angles nobody has used yet: "
+             "the client's decoder and encoder objects across reconnects (re-created? shared? closed in close()?), the dump "
+             "file of a client's decoder at close(), logging calls that evaluate something expensive or failing (an f-string that "
+             "raises), set_receive_callback / set_status_callback called with None, a client used from two event loops one after "
+             "the other, a client constructed outside a running loop, the State enum and its comparisons, properties that "
+             "expose internal objects (queue, lock), and anything in cli.py or __init__.py that wires these together.",
 }
 GROUP = {**{f"C{i:02d}": "codec" for i in (1, 2, 5, 6, 7, 8, 9, 15, 17, 18)}, **{f"C{i:02d}": "state" for i in (3, 4, 10, 11, 16)},
          **{f"C{i:02d}": "async" for i in (12, 13, 14, 19, 20)}}
